@@ -112,7 +112,7 @@ def run(ctx):
     samples = []
     terms, infos = [], []
     neg_pool = ["schema.str.regex('[^a]')", "schema.str.regex('x[^0-9a-f]{3}')", "schema.list(schema.str.regex('[^\\\\w]+')).len(2)"]
-    fixed_seeds = [0, 0.0, "", b"", 1, -1, 2 ** 70, "seed", 3.5, b"\x00", True, False]
+    fixed_seeds = [0, 0.0, "", b"", 1, -1, 2 ** 70, "seed", 3.5, b"\x00", True, False, math.nan, math.inf]
     jobs, meta = [], []
     for q in range(n_seq):
         seqlen = r.randint(1, 5)
@@ -140,7 +140,9 @@ def run(ctx):
             # patterns with repeats: a failed generation must leave nothing behind that later values depend on
             bad = r.choice(["schema.str.regex('a(\\\\s)+')", "schema.str.regex('(x\\\\b){2,}')", "schema.list(schema.str.regex('(\\\\s|b)*c')).len(2)"])
             after = r.sample(["schema.str.regex('[a-c]{2,}x+')", "schema.str.regex('\\\\w+@\\\\w+')", "schema.str.regex('(ab)*c{3,}')",
-                              "schema.list(schema.str.regex('\\\\d+')).len(3)"], 2)
+                              "schema.list(schema.str.regex('\\\\d+')).len(3)", "schema.list(schema.int)",
+                              "schema.list(schema.list(schema.bool))", "schema.dict({'a': schema.list(schema.str.len(2))})",
+                              "schema.list(schema.float.min(0.0).max(1.0))"], 3)
             for src in [bad] + after:
                 sources.append(src)
                 schemas.append(gen.build(src))
@@ -160,7 +162,7 @@ def run(ctx):
             schemas.append(gen.build(src))
             dist["built_by_combinators"] = dist.get("built_by_combinators", 0) + 1
         seed = fixed_seeds[q] if q < len(fixed_seeds) else r.choice([0, 1, 42, r.randrange(1 << 32), "seed", 3.5])
-        jobs.append({"seed": repr(seed), "schemas": sources, "repeat": 2, "thread": q % 3 == 0})
+        jobs.append({"seed": gen.vsrc(seed), "schemas": sources, "repeat": 2, "thread": q % 3 == 0})
         meta.append((seed, sources, schemas, any(has_negated_class(s) for s in schemas)))
         dist["sequences"] += 1
         dist["schemas"] += len(schemas)
@@ -185,6 +187,8 @@ def run(ctx):
             dist["differences"] += 1
             ex = f"seed={seed!r}, schemas={sources}, PYTHONHASHSEED {hashseeds[0]} vs {diff[0]}"
             if negated and ctx.known_finding("F18", ex[:300]):
+                pass
+            elif isinstance(seed, float) and seed != seed and ctx.known_finding("F37", ex[:300]):
                 pass
             else:
                 other = outs[diff[0]][q][0]
